@@ -1191,7 +1191,7 @@ def part_listener(run, n):
     try:
         for i in range(n):
             msgid = rng.choice(['1001', '42', g.string() or 'm', 'id "q" <x> & \t\n', 'é中\U0001F600', ' 7 '])
-            kind = rng.choice(['ok', 'ok', 'unknown_method', 'bad_params', 'not_instance', 'two_params'])
+            kind = rng.choice(['ok', 'ok', 'unknown_method', 'bad_params', 'not_instance', 'two_params', 'dup_params'])
             method = 'ExportIndication'
             inst = g.instance(with_path=False)
             try:
@@ -1208,6 +1208,8 @@ def part_listener(run, n):
                     attr_lit(g.string())
             elif kind == 'two_params':
                 params = params + '<EXPPARAMVALUE NAME="X"><VALUE>1</VALUE></EXPPARAMVALUE>'
+            elif kind == 'dup_params':
+                params = params + params
             text = export_request_text(msgid, method, params)
             try:
                 body = text.encode('utf-8')
